@@ -149,7 +149,7 @@ func genElement(rc *RC, n *int, depth int) string {
 			sb.WriteString(` from="me@example.net/sut"`)
 		}
 		if name == "iq" {
-			sb.WriteString(` type="result"`)
+			sb.WriteString(` type="` + []string{"result", "get", "set", "error"}[ch.Int("workload", 4)] + `"`)
 		}
 		fmt.Fprintf(&sb, ` id="e%d"`, *n)
 		if name == "x" || name == "data" {
@@ -300,6 +300,15 @@ func runC08(rc *RC) {
 		return nil
 	})
 	e.Serve(handler)
+	// in a quarter of the runs the local side closes its output stream at some point while input keeps coming
+	if ch.Chance("workload", 1, 4) {
+		at := time.Duration(ch.Range("workload", 0, 40)) * time.Millisecond
+		rc.Spawn("local-close", func() {
+			simrt.Sleep(at)
+			e.Sess.Close()
+			rc.Fire("local-close")
+		})
+	}
 	peerDone := false
 	p := rc.Spawn("peer", func() {
 		// the stream is written in a few pieces so that deliveries interleave with the serve loop
